@@ -1,4 +1,6 @@
 use crate::Ctx;
+pub mod c01;
+pub mod c01_sr;
 pub mod c03;
 
 pub fn run(id: &str, ctx: &Ctx) -> i32 {
@@ -6,6 +8,7 @@ pub fn run(id: &str, ctx: &Ctx) -> i32 {
     match crate::spec::m1::self_check() { Ok(_) => {}, Err(e) => { eprintln!("MACHINERY: {e}"); return 2; } }
     match crate::spec::m2::self_check() { Ok(_) => {}, Err(e) => { eprintln!("MACHINERY: {e}"); return 2; } }
     match id {
+        "C01" => c01::run(ctx),
         "C03" => c03::run(ctx),
         _ => { eprintln!("unknown property {id}"); 2 }
     }
@@ -15,6 +18,7 @@ pub fn replay(id: &str, path: &str) -> i32 {
     let Ok(s) = std::fs::read_to_string(path) else { eprintln!("cannot read {path}"); return 2; };
     let Ok(v) = serde_json::from_str::<serde_json::Value>(&s) else { eprintln!("bad replay json"); return 2; };
     match id {
+        "C01" => c01::replay(&v),
         "C03" => c03::replay(&v),
         _ => { eprintln!("unknown property {id}"); 2 }
     }
